@@ -25,6 +25,9 @@ pub struct Segment {
     pub decoder: usize,
     /// innermost mutated component: classifier site of failures that carry no source location
     pub site: &'static str,
+    /// the site when the mutated component no longer starts with the CBOR version byte (the
+    /// decoders then dispatch it to the legacy parser of the same component)
+    pub site_if_legacy_dispatch: Option<(&'static str, Box<dyn Fn(u64) -> bool + Send + Sync>)>,
     pub label: String,
     pub count: u64,
     pub generate: Box<dyn Fn(u64) -> Vec<u8> + Send + Sync>,
@@ -44,6 +47,15 @@ pub struct Input<'a> {
     pub seg: &'a Segment,
     pub k: u64,
     pub bytes: Vec<u8>,
+}
+
+impl Input<'_> {
+    pub fn site(&self) -> &'static str {
+        match &self.seg.site_if_legacy_dispatch {
+            Some((alt, is_legacy)) if is_legacy(self.k) => alt,
+            _ => self.seg.site,
+        }
+    }
 }
 
 impl Space {
@@ -160,6 +172,8 @@ pub struct Tiering {
     /// the same encodings reached through a wrapping entry point (hex key, JSON message field)
     pub wrapped: Plan,
     pub blind: Blind,
+    /// blind strings behind a wrapping layer (hex key, JSON message field)
+    pub blind_wrapped: Blind,
     pub bomb_depths: Vec<usize>,
     pub worlds: usize,
 }
@@ -172,6 +186,7 @@ impl Tiering {
                 direct: Plan { lvl: Lvl::Small, max_positions: 160, light: false },
                 wrapped: Plan { lvl: Lvl::Small, max_positions: 40, light: true },
                 blind: Blind { all_len: 2, alpha_len: 5 },
+                blind_wrapped: Blind { all_len: 1, alpha_len: 4 },
                 bomb_depths: vec![10, 300, 20_000, 200_000],
                 worlds: 1,
             },
@@ -180,6 +195,7 @@ impl Tiering {
                 direct: Plan { lvl: Lvl::Full, max_positions: 0, light: false },
                 wrapped: Plan { lvl: Lvl::Small, max_positions: 600, light: false },
                 blind: Blind { all_len: 2, alpha_len: 8 },
+                blind_wrapped: Blind { all_len: 2, alpha_len: 6 },
                 bomb_depths: vec![10, 100, 255, 256, 257, 1000, 3000, 10_000, 30_000, 100_000, 300_000, 1_000_000],
                 worlds: 2,
             },
@@ -192,6 +208,7 @@ impl Tiering {
             "wrapped_entry_points": p(&self.wrapped),
             "blind_all_bytes_up_to_len": self.blind.all_len,
             "blind_5_value_alphabet_up_to_len": self.blind.alpha_len,
+            "blind_behind_hex_or_json_field": {"all_bytes_up_to_len": self.blind_wrapped.all_len, "5_value_alphabet_up_to_len": self.blind_wrapped.alpha_len},
             "nesting_bomb_depths": self.bomb_depths,
             "stm_worlds": self.worlds,
         })
@@ -239,6 +256,19 @@ fn site_of(node: &str, f: Form) -> &'static str {
         _ => "unknown",
     }
 }
+fn legacy_sibling(site: &str) -> Option<&'static str> {
+    Some(match site {
+        "aggregate-signature-cbor" => "aggregate-signature-legacy",
+        "single-signature-with-registered-party-cbor" => "single-signature-with-registered-party-legacy",
+        "single-signature-cbor" => "single-signature-legacy",
+        "closed-registration-entry-cbor" => "closed-registration-entry-legacy",
+        "merkle-batch-path-cbor" => "merkle-batch-path-legacy",
+        "aggregate-verification-key-cbor" => "aggregate-verification-key-legacy",
+        "parameters-cbor" => "parameters-legacy",
+        "initializer-cbor" => "initializer-legacy",
+        _ => return None,
+    })
+}
 fn kind_of(f: Form) -> Kind {
     match f {
         Form::Cbor => Kind::Cbor,
@@ -251,7 +281,10 @@ const FORMS: [Form; 2] = [Form::Cbor, Form::Legacy];
 /// every node of the aggregate-signature encoding tree, in either form, inside ancestors/siblings
 /// of either form; `wrap` rebuilds the whole aggregate signature around the (mutated) node
 fn agg_targets(w: &StmWorld, canon: &[u8]) -> Vec<Tgt> {
-    let p = &w.agg_parts;
+    agg_targets_of(w.name, &w.agg_parts, canon)
+}
+
+fn agg_targets_of(name: &str, p: &h::AggParts, canon: &[u8]) -> Vec<Tgt> {
     let mut out = vec![];
     for f in FORMS {
         let (s0, r0) = (h::enc_s(&p.sps[0].0, f), h::enc_r(&p.sps[0].1, f));
@@ -261,14 +294,14 @@ fn agg_targets(w: &StmWorld, canon: &[u8]) -> Vec<Tgt> {
         let a = h::enc_a(&cp, f);
         out.push(Tgt {
             site: site_of("A", f),
-            label: format!("{}/A:{}", w.name, f.name()),
+            label: format!("{}/A:{}", name, f.name()),
             kind: kind_of(f),
             base: a,
             wrap: id_wrap(),
             honest: Some(canon.to_vec()),
         });
         for t in FORMS {
-            let lab = |node: &str| format!("{}/{}:{} inside {}", w.name, node, t.name(), f.name());
+            let lab = |node: &str| format!("{}/{}:{} inside {}", name, node, t.name(), f.name());
             out.push(Tgt {
                 site: site_of("CP", t),
                 label: lab("CP"),
@@ -401,7 +434,7 @@ impl Builder {
     }
 
     fn push(&mut self, decoder: usize, site: &'static str, label: String, count: u64, honest: Option<Vec<u8>>, derived: bool, g: Box<dyn Fn(u64) -> Vec<u8> + Send + Sync>) {
-        self.segs.push(Segment { decoder, site, label, count, generate: g, honest, derived });
+        self.segs.push(Segment { decoder, site, site_if_legacy_dispatch: None, label, count, generate: g, honest, derived });
     }
 
     /// one segment per mutation family of the target
@@ -433,8 +466,12 @@ impl Builder {
                 }
                 fam => {
                     let n = fam.count(&base);
-                    let (b, w) = (base.clone(), wrap.clone());
+                    let (b, w, f2) = (base.clone(), wrap.clone(), fam.clone());
                     self.push(d, tgt.site, label, n, None, true, Box::new(move |k| w(&fam.apply(&b, k))));
+                    if let (Kind::Cbor, Some(alt)) = (tgt.kind, legacy_sibling(tgt.site)) {
+                        let b = base.clone();
+                        self.segs.last_mut().unwrap().site_if_legacy_dispatch = Some((alt, Box::new(move |k| f2.apply(&b, k).first() != Some(&1))));
+                    }
                 }
             }
         }
@@ -458,7 +495,8 @@ impl Builder {
 
     /// space (a): blind short strings, plus "boundary u64 ‖ tail" strings for length-prefixed layouts
     fn blind_bytes(&mut self, decoder: &str, site: &'static str, outer: Option<&Wrap>) {
-        let b = Blind { all_len: self.t.blind.all_len, alpha_len: self.t.blind.alpha_len };
+        let src = if outer.is_some() { &self.t.blind_wrapped } else { &self.t.blind };
+        let b = Blind { all_len: src.all_len, alpha_len: src.alpha_len };
         let n = b.count();
         let o = outer.cloned();
         let o2 = o.clone();
@@ -800,6 +838,49 @@ pub fn build(tier: Tier, w: &Worlds) -> Space {
         }
     }
 
+    // values with integer fields at u64 extremes: every form must decode to the value whose
+    // canonical (CBOR) encoding the mirror encoders give (self_check proves them on real values)
+    {
+        let world = &w.stm[0];
+        // sanity of the hand-written single-signature CBOR: it must reproduce the real bytes
+        let sp0 = &world.agg_parts.sps[0].0;
+        assert_eq!(h::sig_cbor_with(&sp0.cbor, &sp0.indexes, sp0.signer_index), sp0.cbor, "sig_cbor_with");
+        let x = h::extreme_parts(&world.agg_parts);
+        let canon = h::enc_agg_uniform(&x, Form::Cbor).bytes;
+        for f in FORMS {
+            b.honest("stm/aggregate-signature.bytes", site_of("A", f), &format!("extreme-fields/A:{}", f.name()), h::enc_agg_uniform(&x, f).bytes, canon.clone());
+        }
+        let (s, r) = &x.sps[0];
+        let canon_sp = h::enc_sp(&h::enc_s(s, Form::Cbor).bytes, &h::enc_r(r, Form::Cbor).bytes, Form::Cbor).bytes;
+        for f in FORMS {
+            let e = h::enc_sp(&h::enc_s(s, f).bytes, &h::enc_r(r, f).bytes, f).bytes;
+            b.honest("stm/single-signature-with-registered-party.bytes", site_of("SP", f), &format!("extreme-fields/SP:{}", f.name()), e, canon_sp.clone());
+            b.honest("stm/single-signature.bytes", site_of("S", f), &format!("extreme-fields/S:{}", f.name()), h::enc_s(s, f).bytes, s.cbor.clone());
+        }
+        let xa = h::extreme_avk(&world.avk_parts);
+        let canon_avk = h::enc_avk(&xa, Form::Cbor).bytes;
+        for f in FORMS {
+            b.honest("stm/aggregate-verification-key.bytes", site_of("AVK", f), &format!("extreme-fields/AVK:{}", f.name()), h::enc_avk(&xa, f).bytes, canon_avk.clone());
+        }
+        let px = Parameters { m: u64::MAX, k: u64::MAX - 1, phi_f: 0.2 };
+        b.honest("stm/parameters.bytes", "parameters-legacy", "extreme-fields/PARAMS:legacy", h::enc_params_legacy(&px).bytes, dec::canon_params(&px));
+        b.honest("stm/parameters.bytes", "parameters-cbor", "extreme-fields/PARAMS:cbor", px.to_bytes().expect("params"), dec::canon_params(&px));
+        b.honest("stm/parameters.json", "parameters-json", "extreme-fields/PARAMS:json", serde_json::to_vec(&px).unwrap(), dec::json(&px));
+        // JSON forms
+        let mut sj: Value = serde_json::to_value(&world.sigs[0]).unwrap();
+        sj["signer_index"] = Value::from(u64::MAX);
+        sj["indexes"] = serde_json::json!([0, 4294967296u64, 9007199254740993u64, u64::MAX]);
+        b.honest("stm/single-signature.json", "single-signature-json", "extreme-fields/S:json", serde_json::to_vec(&sj).unwrap(), dec::json(&sj));
+        let mut aj: Value = serde_json::to_value(&world.avk).unwrap();
+        aj["total_stake"] = Value::from(u64::MAX);
+        aj["mt_commitment"]["nr_leaves"] = Value::from(9007199254740993u64);
+        b.honest("stm/aggregate-verification-key.json", "aggregate-verification-key-json", "extreme-fields/AVK:json", serde_json::to_vec(&aj).unwrap(), dec::json(&aj));
+        let mut gj: Value = serde_json::to_value(&world.agg).unwrap();
+        gj["signatures"][0][1][1] = Value::from(u64::MAX);
+        gj["signatures"][0][0]["signer_index"] = Value::from(u64::MAX - 1);
+        b.honest("stm/aggregate-signature.json", "aggregate-signature-json", "extreme-fields/A:json", serde_json::to_vec(&gj).unwrap(), dec::json(&gj));
+    }
+
     // blind strings and bombs for every binary STM decoder
     for (name, site) in [
         ("stm/single-signature.bytes", "single-signature-legacy"),
@@ -853,6 +934,13 @@ pub fn build(tier: Tier, w: &Worlds) -> Space {
             b.honest("stm/aggregate-signature.bytes", "aggregate-signature-cbor", &format!("fake_keys::multi_signature[{i}] bytes"), k.to_bytes_vec().expect("bytes"), dec::canon_agg(&k));
             let parts = h::decompose(&k.to_bytes_vec().expect("bytes"));
             b.honest("stm/aggregate-signature.bytes", "aggregate-signature-legacy", &format!("fake_keys::multi_signature[{i}] legacy bytes"), h::enc_agg_uniform(&parts, Form::Legacy).bytes, dec::canon_agg(&k));
+            // a multi-signature of realistic size (the repository's golden value), cheapest families
+            if i == 0 && b.t.tier == Tier::Thorough {
+                let light = Plan { lvl: Lvl::Small, max_positions: 400, light: true };
+                for t in agg_targets_of("fixture-multi-signature", &parts, &dec::canon_agg(&k)) {
+                    b.target("stm/aggregate-signature.bytes", &t, &idw, light, true);
+                }
+            }
         }
     }
     for (i, s) in fake_keys::single_signature().iter().enumerate() {
@@ -877,11 +965,10 @@ pub fn build(tier: Tier, w: &Worlds) -> Space {
     }
 
     // KES signature, operational certificate, ed25519 keys: honest values are the repository's fixtures
-    let light_or = |p: Plan| p;
     if let Ok(k) = ProtocolKey::<kes_summed_ed25519::kes::Sum6KesSig>::from_json_hex(fake_keys::signer_verification_key_signature()[0]) {
         let bytes = k.to_bytes_vec().expect("kes bytes");
         let t = Tgt { site: "kes-signature", label: "fixture/KES-SIG".into(), kind: Kind::Raw, base: raw(bytes.clone()), wrap: id_wrap(), honest: Some(bytes.clone()) };
-        b.target("common/kes-signature.bytes", &t, &idw, light_or(direct), true);
+        b.target("common/kes-signature.bytes", &t, &idw, direct, true);
         let t = Tgt { honest: Some(dec::canon_key(&k)), ..t };
         b.target("key/kes-signature.text", &t, &hexw, wrapped, true);
         let j = serde_json::to_vec(&*k).expect("kes json");
